@@ -49,7 +49,7 @@ def main():
                 from harness.engine import budget
 
                 try:
-                    out = json.dumps(budget.call(answer, req, seconds=8))
+                    out = json.dumps(budget.call(answer, req, seconds=30))
                 except budget.Budget:
                     out = json.dumps({"err": "EXC:DoesNotTerminate", "result": {"aset": [], "aval": [], "oset": [], "oval": []}, "msg": ""})
             except BaseException as e:  # noqa
